@@ -21,6 +21,10 @@ pub fn leafs() -> Vec<(String, Ty, Option<Lit>)> {
         };
         v.push((format!("int-{n}"), Ty::Int { range: r, named: vec![] }, d));
     }
+    // extensible forms whose root is open on one or both sides (front end and generator only: not compiled into the zoo)
+    for (n, lo, hi) in [("xo0", Bound::Lit(0), Bound::Max), ("xo1", Bound::Min, Bound::Max), ("xo2", Bound::Min, Bound::Lit(5)), ("xo3", Bound::Lit(0), Bound::Lit(i64::MAX)), ("xo4", Bound::Lit(-1), Bound::Max)] {
+        v.push((format!("int-{n}"), Ty::Int { range: Some(IntRange { lo, hi, ext: true }), named: vec![] }, Some(Lit::Int(3))));
+    }
     v.push(("int-named".into(), Ty::Int { range: Some(IntRange::lit(0, 3)), named: vec![("low".into(), 0), ("high".into(), 3)] }, Some(Lit::Int(2))));
     v.push(("int-named-unconstrained".into(), Ty::Int { range: None, named: vec![("neg".into(), -5), ("big".into(), 70000)] }, None));
     for (n, t, _) in enum_forms() {
